@@ -50,7 +50,8 @@ RECURSIVE StageClauses(_, _)
 StageClauses(e, k) ==
   IF k > Len(e.obs.stages) THEN <<>>
   ELSE ViewClauses(e, k, e.obs.stages[k].live, "live") \o ViewClauses(e, k, e.obs.stages[k].reopened, "reopened")
-       \o << <<"rawUnchanged", e.obs.stages[k].raw_rest = e.obs.raw_rest0>> >>
+       \o << <<"rawUnchanged", e.obs.stages[k].raw_rest = e.obs.raw_rest0>>,
+             <<"otherCollectionsUntouched", e.obs.stages[k].sibling = e.obs.sibling0>> >>
        \o CSRClauses(e.obs.stages[k].raw)
        \o StageClauses(e, k + 1)
 RenameClauses(e) == StageClauses(e, 1)
